@@ -1,22 +1,22 @@
 SPECIFICATION Spec
 CONSTANTS
   Kind = "sn"
-  Smp = "ref"
+  Smp = "asis"
   SumSamples = FALSE
   ExpSamples = FALSE
   OptImpl = "fixed"
   Ctor = "bare"
-  N = 2
+  N = 3
   Chans = 1
   Temps = {"any"}
-  Acts = {"temp", "hard", "gumbel", "disable", "mode", "fwd", "alpha", "load", "summary", "export"}
+  Acts = {"temp", "hard", "gumbel", "disable", "mode", "fwd", "alpha", "load", "freeze", "summary", "export"}
   Writes = {"copy", "data", "optim"}
   Ckpts = {"soft"}
   Moves = "gen"
   InitAlpha = "ctor"
-  AllowKF = FALSE
+  AllowKF = TRUE
   Grads = {TRUE, FALSE}
-  SelHows = {}
+  SelHows = {"freeze_attr", "unfreeze_attr"}
 INVARIANT TypeOK
 INVARIANT SampledIsProb
 INVARIANT OneHotAtArgmax
